@@ -123,6 +123,7 @@ type Invocation struct {
 	NFCount   int
 	SigCount  int
 	Swallowed bool // a fatal/panic signal was raised but the body still returned normally
+	LibAbort  bool // the body was ended by a panic the library raised (rejected or exhausted input, Repeat giving up)
 	Skips     int
 	Actions   int   // completed actions
 	ASkips    int   // skipped/aborted actions
@@ -657,6 +658,7 @@ func (inv *Invocation) finalize() {
 			if !e.Normal {
 				anyAbnormal = true
 				lastRepeatAbort = p.kind == "" && trailingSkips >= 100
+				inv.LibAbort = p.kind == ""
 			}
 		case "cleave":
 			if bodyLeft && e.Scope == 0 && !e.Normal {
